@@ -422,8 +422,105 @@ func c04Run(input string) string {
 		return c04AEAD(f)
 	case "enc":
 		return c04Enc(f)
+	case "bls":
+		return c04BLS(f)
 	}
 	return "bad-input"
+}
+
+// BLS12-381 G2 multi-message signatures: "bls|" n "|" how "|" neg
+//   n   : number of signed messages ("message-<i>")
+//   how : own (public handle of the signing handle) | exp (exported key re-imported by ANOTHER kms)
+//   neg : none | chg:K (message K changed) | swap:I:J (messages I and J exchanged) | drop (last message dropped) |
+//         app (one more message) | key (another key) | flip:P (bit of the signature byte at permille P)
+// output: sign=<ok|err> len=<n> honest=<ok|fail> neg=<ok|fail|na>
+var c04BLSKeys struct {
+	kh, pubOwn, pubExp, pubOther interface{}
+}
+
+func c04BLS(f []string) string {
+	if len(f) != 4 {
+		return "bad-input"
+	}
+	n, err := strconv.Atoi(f[1])
+	if err != nil || n < 1 || n > 70000 {
+		return "bad-input"
+	}
+	k := &c04BLSKeys
+	if k.kh == nil {
+		kid, kh, err := c04KMS.Create(kmsapi.BLS12381G2Type)
+		if err != nil {
+			return "key=err"
+		}
+		pb, _, err := c04KMS.ExportPubKeyBytes(kid)
+		if err != nil {
+			return "key=err"
+		}
+		if k.pubExp, err = c04Other.PubKeyBytesToHandle(pb, kmsapi.BLS12381G2Type); err != nil {
+			return "key=err"
+		}
+		if k.pubOwn, err = kh.(*keyset.Handle).Public(); err != nil {
+			return "key=err"
+		}
+		_, pb2, err := c04Other.CreateAndExportPubKeyBytes(kmsapi.BLS12381G2Type)
+		if err != nil {
+			return "key=err"
+		}
+		if k.pubOther, err = c04Other.PubKeyBytesToHandle(pb2, kmsapi.BLS12381G2Type); err != nil {
+			return "key=err"
+		}
+		k.kh = kh
+	}
+	msgs := make([][]byte, n)
+	for i := range msgs {
+		msgs[i] = []byte(fmt.Sprintf("message-%d", i))
+	}
+	sig, err := envCrypto.SignMulti(msgs, k.kh)
+	if err != nil {
+		return "sign=err"
+	}
+	pub := k.pubOwn
+	if f[2] == "exp" {
+		pub = k.pubExp
+	}
+	show := func(e error) string {
+		if e == nil {
+			return "ok"
+		}
+		return "fail"
+	}
+	honest := show(envCrypto.VerifyMulti(msgs, sig, pub))
+	neg := "na"
+	nf := strings.Split(f[3], ":")
+	alt := append([][]byte{}, msgs...)
+	switch nf[0] {
+	case "chg":
+		if i, _ := strconv.Atoi(nf[1]); i < n {
+			alt[i] = append(append([]byte{}, alt[i]...), 'x')
+			neg = show(envCrypto.VerifyMulti(alt, sig, pub))
+		}
+	case "swap":
+		i, _ := strconv.Atoi(nf[1])
+		j, _ := strconv.Atoi(nf[2])
+		if i < n && j < n && i != j {
+			alt[i], alt[j] = alt[j], alt[i]
+			neg = show(envCrypto.VerifyMulti(alt, sig, pub))
+		}
+	case "drop":
+		if n > 1 {
+			neg = show(envCrypto.VerifyMulti(alt[:n-1], sig, pub))
+		}
+	case "app":
+		neg = show(envCrypto.VerifyMulti(append(alt, []byte("one more")), sig, pub))
+	case "key":
+		neg = show(envCrypto.VerifyMulti(msgs, sig, k.pubOther))
+	case "flip":
+		pm, _ := strconv.Atoi(nf[1])
+		s2 := append([]byte{}, sig...)
+		s2[(len(s2)-1)*pm/1000] ^= 1
+		neg = show(envCrypto.VerifyMulti(msgs, s2, pub))
+	}
+	return fmt.Sprintf("sign=ok len=%d honest=%s neg=%s", len(sig), honest, neg)
 }
 
 func c04Gen(r *Rng, tier string) []string {
@@ -435,6 +532,36 @@ func c04Gen(r *Rng, tier string) []string {
 	aeadT := []string{"a128gcm", "a256gcm", "a256gcmnp", "chacha", "xchacha"}
 	msgs := []string{"e", "1", "a", "b", "c", "big"}
 	var out []string
+	// BLS12-381 G2 multi-message signatures
+	blsNeg := func(k int) string {
+		switch x := r.N(10); {
+		case x < 1:
+			return "none"
+		case x < 4:
+			return fmt.Sprintf("chg:%d", r.N(k))
+		case x < 6:
+			return fmt.Sprintf("swap:%d:%d", r.N(k), r.N(k))
+		case x < 7:
+			return "drop"
+		case x < 8:
+			return "app"
+		case x < 9:
+			return "key"
+		}
+		return fmt.Sprintf("flip:%d", r.N(1001))
+	}
+	for i := 0; i < n/12; i++ {
+		k := 1 + r.N(8)
+		if r.N(4) == 0 {
+			k = []int{15, 16, 17, 31, 32, 33, 64, 65, 70}[r.N(9)]
+		}
+		out = append(out, fmt.Sprintf("bls|%d|%s|%s", k, r.Pick([]string{"own", "exp"}), blsNeg(k)))
+	}
+	if tier == "thorough" {
+		// message counts around 2^8 and beyond 2^16: indexes that differ by a power of two
+		out = append(out, "bls|257|own|swap:0:256", "bls|300|exp|swap:1:257", "bls|65537|own|swap:0:65536", "bls|65540|exp|swap:3:65539",
+			"bls|65537|own|chg:65536")
+	}
 	for i := 0; i < n; i++ {
 		switch x := r.N(10); {
 		case x < 5:
